@@ -276,6 +276,64 @@ def _last_defs(f, pos, match):
     return out
 
 
+def _stale_at(f, var, sources, dst):
+    """True if some entry->dst path redefines `var` after the last producer of the state
+    (`sources`: positions of the stepper calls) on that path: the value read at dst is then not
+    the one the state was produced with.  Forward walk from the entry, path-sensitive in local
+    boolean flags that are only assigned the literals true/false (`succeeded`), so that a retry
+    loop `do {...} while (!succeeded && --n > 0)` and an arm `if (!succeeded) { redo }` after it
+    are understood."""
+    sources = set(map(tuple, sources))
+    seen = set()
+    work = [(f.entry, 0, False, frozenset(), None)]
+    while work:
+        b, i, dirty, flags, forced = work.pop()
+        fl = dict(flags)
+        evs = f.blocks[b]["ev"]
+        stop = False
+        for k in range(i, len(evs)):
+            if (b, k) == tuple(dst):
+                if dirty:
+                    return True
+                stop = True
+                break
+            e = evs[k]
+            if (b, k) in sources:
+                dirty = False        # a new stepper call re-synchronises state and length
+            elif e["e"] == "def" and e.get("var") == var:
+                dirty = True
+            if e["e"] == "def" and e.get("var") and (b, k) not in sources:
+                if e.get("kind") in ("decl", "assign") and e.get("rhs") in ("true", "false"):
+                    fl[e["var"]] = e["rhs"] == "true"
+                else:
+                    fl.pop(e["var"], None)
+        if stop:
+            continue
+        raw = f.blocks[b]["succ"]
+        c = f.blocks[b].get("cond")
+        idxs = list(range(len(raw)))
+        if forced is not None and len(raw) == 2:
+            idxs = [forced]          # reached through a short-circuit edge: `a && b` is false
+        elif c and c.get("var") in fl and len(raw) == 2:
+            idxs = [f.cond_polarity_edge(b, fl[c["var"]])]
+        for ix in idxs:
+            sx = raw[ix]
+            if sx is None:
+                continue
+            nforced = None
+            if len(raw) == 2 and f.blocks[b].get("tk") == "BinaryOperator":
+                other = raw[1 - ix]
+                if other is not None and [x for x in f.blocks[other]["succ"] if x is not None] == [sx]:
+                    # b is the first operand of `a && b` (ix == 1) / `a || b` (ix == 0) and this
+                    # edge skips the second operand: the join block's condition has that value
+                    nforced = ix
+            key = (sx, dirty, frozenset(fl.items()), nforced)
+            if key not in seen:
+                seen.add(key)
+                work.append((sx, 0, dirty, frozenset(fl.items()), nforced))
+    return False
+
+
 def driver_length_coherent(db, cx):
     """K4 (provenance pairing): on every path to a `return` of a FieldDriver method that hands
     back a (state, step) pair, the two components come from the same producer: one whole-record
@@ -333,10 +391,17 @@ def driver_length_coherent(db, cx):
                         ln = ev if k == "step" else partner[-1]
                         lvars = local_refs(ln.get("refs", []))
                         srefs = set(st.get("refs", []))
+                        sources = []        # where the state was produced (stepper call)
                         for v in local_refs(st.get("refs", [])):
-                            for (_b, _i, d) in f.reaching_defs(v, (b, evs.index(st))):
+                            for (db_, di_, d) in f.reaching_defs(v, (b, evs.index(st))):
                                 srefs |= set(d.get("refs", []))
+                                if d.get("calls") and d.get("refs"):
+                                    sources.append((db_, di_))
                         if lvars and lvars <= srefs and not ln.get("calls"):
+                            stale = [v for v in lvars
+                                     if sources and _stale_at(f, v, sources, (b, evs.index(ln)))]
+                            if stale:
+                                return [("stale-length", b, evs.index(ln))]
                             return [("pair", b)]
                     if k == "step":
                         # accumulated length: A starts at literal 0 and is `+=`-ed with the step of
@@ -372,7 +437,8 @@ def driver_length_coherent(db, cx):
                     ks |= set(key(b, i, ev))
                 for (b, i, ev) in producers("step"):
                     kl |= set(key(b, i, ev))
-                ok = bool(ks) and ks == kl
+                stale = [k_ for k_ in ks | kl if k_[0] == "stale-length"]
+                ok = bool(ks) and ks == kl and not stale
 
                 def where(keys):
                     out = []
@@ -383,6 +449,9 @@ def driver_length_coherent(db, cx):
                     return ", ".join(out)
                 cx.ob("C08.6-driver-length", "%s return @%s: state and step from the same producer [%s]"
                       % (n.split("::")[-1], short(rev["loc"]).split(":")[-1], tag), ok,
+                      ("the length variable is redefined between the stepper call that produced the "
+                       "state and the assignment of the step (%s): on that path the reported length is "
+                       "not the integrated one" % where(stale)) if stale else
                       "state <- {%s}; step <- {%s}" % (where(ks), where(kl)), short(rev["loc"]),
                       why="the driver must report the length it actually integrated: a state advanced "
                           "by one length but labelled with another puts the end point off the field "
